@@ -31,12 +31,15 @@ EXTENDS Integers, Sequences, SequencesExt, FiniteSets, TLC, Json
 
 CONSTANTS Level,       \* 1: depth-1 alphabet; 2: + reduced depth-2 alphabet; 3: + full depth-2 alphabet
           TripleLevel, \* 1: small triple alphabet; 2: large
-          Shard, NShards, \* this TLC process handles the cases with index % NShards = Shard
+          Shard, NShards, \* this TLC process handles the type cases with index % NShards = Shard;
+                          \* Shard = -1: no type cases, only Part 2 (Part 2 also runs when NShards = 1)
           OutFile,     \* ndjson file for the type cases ("" = no export)
           SpillFile,   \* ndjson file for the spill cases ("" = no export)
           MaxLen,      \* state machine: max number of input values
           Mems,        \* state machine: set of memMaxBytes values
           Sizes        \* state machine: set of byte sizes of non-null values
+
+Part2 == Shard < 0 \/ NShards = 1   \* this process checks the Fuser state machine and the side lemmas
 
 \* ------------------------------------------------------------- type terms
 P(p)         == [k |-> "prim", p |-> p]
@@ -326,9 +329,13 @@ I2small == {RA, RB, Arr(I64), SetT(I64), Uni(<<I64, Str>>), Named("N", I64), Map
 I2full  == I2small \cup {RAs, Rec(<<>>), Rec(<<Fld("a", I64), Fld("b", Str)>>), Arr(Str), SetT(Str), MapT(Str, I64), Named("R", RA), F64}
 I2 == IF Level >= 3 THEN I2full ELSE I2small
 NonUnion(S) == {t \in S : t.k # "union"}
-L2 == {Rec(<<Fld("a", t)>>) : t \in I2} \cup {Rec(<<Fld("a", t), Fld("b", I64)>>) : t \in I2}
-      \cup {Arr(t) : t \in I2} \cup {SetT(t) : t \in I2}
-      \cup ({Uni(<<t, u>>) : t \in NonUnion(I2) \cup Prims, u \in NonUnion(I2) \cup {Str}} \ {Uni(<<t, t>>) : t \in I2 \cup L0})
+L2 == {Rec(<<Fld("a", t)>>) : t \in I2}
+      \cup (IF Level >= 3 THEN {Rec(<<Fld("a", t), Fld("b", I64)>>) : t \in I2} ELSE {})
+      \cup {Arr(t) : t \in I2}
+      \cup {SetT(t) : t \in IF Level >= 3 THEN I2 ELSE {RA, Arr(I64), SetT(I64)}}
+      \cup ({Uni(<<t, u>>) : t \in NonUnion(I2) \cup Prims,
+                             u \in IF Level >= 3 THEN NonUnion(I2) \cup {Str} ELSE {Str, RB}}
+            \ {Uni(<<t, t>>) : t \in I2 \cup L0})
       \cup {Named("R", RA), MapT(I64, RA), MapT(Str, Arr(I64)), F64}
 Terms == IF Level >= 2 THEN L1 \cup L2 ELSE L1
 
@@ -373,7 +380,7 @@ TaintPrecise(c) == /\ SeqHas(c.taint, "dup") => ~c.wf
 AllHold(Pr) == \A i \in 1..Len(Pr) : CaseHolds(Pr[i]) /\ TaintPrecise(Pr[i])
 
 \* Non-vacuity: untainted cases really exercise union casting, filling and container merging.
-NonVacuous(Pr) ==
+NonVacuous(Pr) == Shard < 0 \/
   /\ \E i \in 1..Len(Pr) : Pr[i].taint = <<>> /\ Pr[i].fused.k = "union"
   /\ \E i \in 1..Len(Pr) : Pr[i].taint = <<>> /\ Pr[i].fused.k = "rec"
                              /\ Len(Pr[i].fused.fs) = 2 /\ Pr[i].ins[1].k = "rec" /\ Len(Pr[i].ins[1].fs) = 1
@@ -390,7 +397,7 @@ ASSUME CheckCases(Predictions)
 
 \* merge is commutative up to record field order (not needed by the property; documents the transcription)
 \* (TLC evaluates every constant definition at startup, so the shard guard is inside the definitions.)
-Commutes == Shard # 0 \/ \A a \in L1, b \in L1 : NormFields(MergeR(a, b).t) = NormFields(MergeR(b, a).t)
+Commutes == ~Part2 \/ \A a \in L1, b \in L1 : NormFields(MergeR(a, b).t) = NormFields(MergeR(b, a).t)
 \* merge(t,t) = t (up to names and field order) off the defect path, except that a union with several
 \* record members collapses them by design (mergeAllRecords); on the defect path the result is ill-formed.
 RECURSIVE MultiRecUnion(_)
@@ -402,7 +409,7 @@ MultiRecUnion(t) ==
     [] t.k = "map"   -> MultiRecUnion(t.kt) \/ MultiRecUnion(t.vt)
     [] t.k = "union" -> \/ Cardinality({i \in 1..Len(t.ts) : IsRecT(t.ts[i])}) >= 2
                         \/ \E i \in 1..Len(t.ts) : MultiRecUnion(t.ts[i])
-Idempotent == Shard # 0 \/ \A t \in Terms : LET m == MergeR(t, t) IN
+Idempotent == ~Part2 \/ \A t \in Terms : LET m == MergeR(t, t) IN
                  IF m.x # {} THEN ~WellFormed(m.t)
                  ELSE /\ Embeds(t, m.t)
                       /\ MultiRecUnion(t) \/ NormFields(Under(m.t)) = NormFields(Under(t))
@@ -498,15 +505,15 @@ SchemaInv == wi > 1 => schema = FusedOf(SubSeq(input, 1, wi - 1))
 DoneInv == pc = "done" => /\ out = Expected(input)
                           /\ spillAt = SpillIndex(input, mem)
                           /\ \A i \in 1..Len(out) : out[i].typ = schema
-SpillNonVacuous == IF Shard # 0 THEN TRUE ELSE
+SpillNonVacuous == IF ~Part2 THEN TRUE ELSE
                    /\ \E in \in Inputs, m \in Mems : SpillIndex(in, m) = 0 /\ Len(in) >= 2
                    /\ \E in \in Inputs, m \in Mems : SpillIndex(in, m) = 1 /\ Len(in) >= 2
                    /\ \E in \in Inputs, m \in Mems : SpillIndex(in, m) >= 2
                    /\ \E in \in Inputs : Len(in) >= 2 /\ FusedOf(in).k = "rec" /\ Len(FusedOf(in).fs) = 2
 ASSUME SpillNonVacuous
 
-SpillCases == IF Shard # 0 THEN {} ELSE
+SpillCases == IF ~Part2 THEN {} ELSE
               {[input |-> in, mem |-> m, spillAt |-> SpillIndex(in, m), fused |-> FusedOf(in),
                 outs |-> [i \in 1..Len(in) |-> Expected(in)[i].typ]] : in \in {q \in Inputs : Len(q) >= 1}, m \in Mems}
-ASSUME Shard # 0 \/ SpillFile = "" \/ ndJsonSerialize(SpillFile, SetToSeq(SpillCases))
+ASSUME ~Part2 \/ SpillFile = "" \/ ndJsonSerialize(SpillFile, SetToSeq(SpillCases))
 =============================================================================
